@@ -101,6 +101,39 @@ class _Gen:
         self.at = at
 
 
+class _IdxSet(symx.Mask):
+    """what numpy.nonzero / numpy.where(cond) (`tup`: the 1-tuple of index arrays) and numpy.flatnonzero / numpy.argwhere / `(w,) = ...` /
+    `...[0]` (the index array) give for an element-wise condition.  For the term domain it is the condition itself (x[w] is x where the
+    condition holds, exactly as for the boolean mask), but its length is the number of selected elements, and its truth value, sum and
+    bit operations say nothing about the condition."""
+
+    def __init__(self, cond, tup=False):
+        super().__init__(cond)
+        self.tup = tup
+
+    def __repr__(self):
+        return "_IdxSet(%s%s)" % (self.cond, ", tuple" if self.tup else "")
+
+
+class _Count:
+    """the number of elements an element-wise condition selects: len / size / shape[0] of an index array, count_nonzero / sum of a boolean mask"""
+
+    def __init__(self, mask):
+        self.mask = mask
+
+    def __repr__(self):
+        return "_Count(%s)" % (self.mask.cond,)
+
+
+# numpy callees that return the index set of a condition; value: (is the 1-tuple form, name of the array parameter)
+_INDEX_SET_FUNCS = {"numpy.nonzero": (True, "a"), "numpy.where": (True, None), "numpy.flatnonzero": (False, "a"), "numpy.argwhere": (False, "a")}
+# comparison / logical ufuncs and the operator they spell
+_CMP_UFUNCS = {"numpy.greater": ast.Gt, "numpy.greater_equal": ast.GtE, "numpy.less": ast.Lt, "numpy.less_equal": ast.LtE, "numpy.equal": ast.Eq, "numpy.not_equal": ast.NotEq,
+               "operator.gt": ast.Gt, "operator.ge": ast.GtE, "operator.lt": ast.Lt, "operator.le": ast.LtE, "operator.eq": ast.Eq, "operator.ne": ast.NotEq}
+_LOGIC_UFUNCS = {"numpy.logical_and": ast.BitAnd, "numpy.bitwise_and": ast.BitAnd, "numpy.logical_or": ast.BitOr, "numpy.bitwise_or": ast.BitOr,
+                 "operator.and_": ast.BitAnd, "operator.or_": ast.BitOr}
+_NOT_UFUNCS = ("numpy.logical_not", "numpy.invert", "numpy.bitwise_not", "operator.invert", "operator.inv")
+
 NPTS = sp.Symbol("NPTS", integer=True, positive=True)          # number of points of a (non-empty) array input
 IDX = sp.Symbol("IDX", integer=True, nonnegative=True)          # index of the generic point of a loop over all points
 FORALL = sp.Function("FORALL")                                   # FORALL(IDX, t): the array whose element IDX is t, for every point
@@ -313,6 +346,246 @@ class _Env(symx.Env):
             self.vars.pop(k, None)
         return []
 
+    # -- element-wise conditions: boolean masks, index sets, how many elements they select ------------------------------------------
+    # The shared evaluator reads `x[w] = v` / `x[w] += v` under a condition w as the case distinction (v where w holds, x elsewhere)
+    # and runs the statements guarded by "w selects something" unconditionally (a masked update is a no-op for an empty selection).
+    # Here every everyday spelling of the three ingredients is mapped onto that reading:
+    #   the condition : a comparison, numpy.greater & co, & | ~ and numpy.logical_*;
+    #   the selection : the mask itself, numpy.where(c) / numpy.nonzero(c) / c.nonzero() (1-tuple, unpacked or [0]), numpy.flatnonzero(c),
+    #                   numpy.argwhere(c), with layout-only calls in between;
+    #   the guard     : w.size, len(w), w.shape[0], numpy.size(w) for an index array, c.any(), numpy.any(c), numpy.count_nonzero(c), c.sum(),
+    #                   numpy.sum(c) for a mask, tested by truth value, `> 0`, `!= 0`, `>= 1`, their mirror images, or negated
+    #                   (`== 0`, `< 1`, `<= 0`, `not ...`) with the statements in the else arm.
+    # What is not one of these (the truth value or the sum of an index array, a guard with statements in both arms, a count compared
+    # with another number) stops the evaluation: no verdict.
+    def _index_set(self, v, tup, c):
+        if isinstance(v, _IdxSet):
+            raise symx.Unsupported("symx: index set of an index array `%s` at %s" % (norm(c)[:60], self.where(c)))
+        if isinstance(v, symx.Mask):
+            return _IdxSet(v.cond, tup)
+        if v is True or v is False:
+            return _IdxSet(sp.true if v else sp.false, tup)
+        if isinstance(v, sp.Basic) and not isinstance(v, sp.core.function.AppliedUndef) and (v.is_Boolean or v.is_Relational):
+            return _IdxSet(v, tup)
+        if symx._is_expr(v):
+            rel = sp.Ne(symx._as_expr(v), 0)          # the non-zero elements of a numeric array
+            return _IdxSet(rel, tup)
+        return None
+
+    def _arr_mask(self, node):
+        """the Mask an expression denotes (an index array or a boolean mask, not the 1-tuple numpy.nonzero returns), else None"""
+        try:
+            v = self.ev(node)
+        except symx.Unsupported:
+            return None
+        if isinstance(v, symx.Mask) and not (isinstance(v, _IdxSet) and v.tup):
+            return v
+        return None
+
+    def _count(self, node):
+        """the _Count an expression denotes, else None"""
+        if isinstance(node, ast.Attribute) and node.attr == "size" and norm(node) not in self.vars:
+            m = self._arr_mask(node.value)
+            if m is not None:
+                return _Count(m)          # of a boolean mask: the number of points, no smaller than the number of selected ones
+        if isinstance(node, ast.Subscript) and const_value(node.slice) == 0:
+            b = node.value
+            if isinstance(b, ast.Attribute) and b.attr == "shape":
+                m = self._arr_mask(b.value)
+                if m is not None:
+                    return _Count(m)
+            if isinstance(b, ast.Call) and len(b.args) == 1 and not b.keywords and self._full(b.func) == "numpy.shape":
+                m = self._arr_mask(b.args[0])
+                if m is not None:
+                    return _Count(m)
+        if isinstance(node, (ast.Name, ast.Call)):
+            try:
+                v = self.ev(node)
+            except symx.Unsupported:
+                return None
+            if isinstance(v, _Count):
+                return v
+        return None
+
+    def _module_ref(self, node):
+        d = dotted_name(node)
+        return bool(d) and d.split(".")[0] not in self.vars and d.split(".")[0] in self.mod.imports
+
+    def _full(self, f):
+        d = dotted_name(f)
+        if not d or d.split(".")[0] in self.vars:
+            return ""
+        return self.se.repo.resolve_name(self.mod, d)
+
+    def _sel_test(self, t):
+        """'mask' when the test says that a condition selects something (or that the array is not empty), 'nomask' when it says the
+        opposite, None when it is another kind of test"""
+        if isinstance(t, ast.UnaryOp) and isinstance(t.op, ast.Not):
+            k = self._sel_test(t.operand)
+            return {"mask": "nomask", "nomask": "mask"}.get(k)
+        if isinstance(t, ast.Call) and len(t.args) == 1 and not t.keywords and isinstance(t.func, ast.Name) and t.func.id == "bool" and "bool" not in self.vars:
+            return self._sel_test(t.args[0])
+        if isinstance(t, ast.Compare) and len(t.ops) == 1:
+            a, b, op = t.left, t.comparators[0], type(t.ops[0])
+            if const_value(a) in (0, 1) and not isinstance(const_value(a), bool):
+                a, b = b, a
+                op = {ast.Lt: ast.Gt, ast.Gt: ast.Lt, ast.LtE: ast.GtE, ast.GtE: ast.LtE}.get(op, op)
+            n = const_value(b)
+            if n in (0, 1) and not isinstance(n, bool):
+                cnt = self._count(a)
+                if cnt is not None:
+                    if (op, n) in ((ast.Gt, 0), (ast.NotEq, 0), (ast.GtE, 1)):
+                        return "mask"
+                    if (op, n) in ((ast.Eq, 0), (ast.Lt, 1), (ast.LtE, 0)):
+                        return "nomask"
+                    raise symx.Unsupported("symx: selection-size test `%s` at %s" % (norm(t), self.where(t)))
+            return None
+        cnt = self._count(t)
+        if cnt is not None:
+            return "mask"
+        # c.any() / numpy.any(c) / any(c)
+        arg = None
+        if isinstance(t, ast.Call) and not t.keywords:
+            if isinstance(t.func, ast.Attribute) and t.func.attr == "any" and not t.args and self._full(t.func) == "":
+                arg = t.func.value
+            elif len(t.args) == 1 and (self._full(t.func) == "numpy.any" or (isinstance(t.func, ast.Name) and t.func.id == "any" and "any" not in self.vars
+                                                                                and "any" not in self.mod.imports and "any" not in self.mod.funcs)):
+                arg = t.args[0]
+        if arg is not None:
+            try:
+                v = self.ev(arg)
+            except symx.Unsupported:
+                v = None
+            if isinstance(v, _IdxSet):
+                raise symx.Unsupported("symx: `%s` asks whether an index is non-zero, not whether anything is selected, at %s" % (norm(t), self.where(t)))
+            if isinstance(v, symx.Mask):
+                return "mask"
+        return None
+
+    @staticmethod
+    def _no_effect(stmts):
+        return all(isinstance(s, ast.Pass) or (isinstance(s, ast.Expr) and isinstance(s.value, ast.Constant)) for s in stmts)
+
+    def exec_if(self, st, cond):
+        k = self._sel_test(st.test)
+        if k == "nomask":
+            # `if nothing is selected: pass  else: masked updates`
+            if not self._no_effect(st.body):
+                raise symx.Unsupported("symx: statements that run only when `%s` selects nothing at %s" % (norm(st.test)[:60], self.where(st)))
+            return self.exec_body(st.orelse, cond)
+        if k == "mask":
+            if not self._no_effect(st.orelse):
+                raise symx.Unsupported("symx: statements that run only when `%s` selects nothing at %s" % (norm(st.test)[:60], self.where(st)))
+            return self.exec_body(st.body, cond)
+        return super().exec_if(st, cond)
+
+    def truth(self, t):
+        if self.se.assume and ("text:" + norm(t)) in self.se.assume:
+            return super().truth(t)
+        k = self._sel_test(t)
+        if k == "mask":
+            return "mask"
+        if k == "nomask":
+            raise symx.Unsupported("symx: test `%s` (nothing selected) outside an if statement at %s" % (norm(t)[:60], self.where(t)))
+        if isinstance(t, ast.BoolOp):
+            for v in t.values:
+                if self._sel_test(v) == "nomask":
+                    raise symx.Unsupported("symx: test `%s` (nothing selected) combined with another test at %s" % (norm(v)[:60], self.where(t)))
+            return super().truth(t)
+        if isinstance(t, (ast.Name, ast.Attribute, ast.Subscript, ast.Call, ast.Compare)):
+            # a test that mentions a selection and is none of the forms above must not be decided by a default
+            sel = [x.id for x in ast.walk(t) if isinstance(x, ast.Name) and isinstance(self.vars.get(x.id), (symx.Mask, _Count))]
+            if sel:
+                try:
+                    v = self.ev(t)
+                except symx.Unsupported:
+                    v = None
+                if isinstance(v, (symx.Opaque, _IdxSet, _Count)):
+                    raise symx.Unsupported("symx: cannot decide test `%s` about the selection `%s` at %s" % (norm(t)[:60], sel[0], self.where(t)))
+        return super().truth(t)
+
+    def binop(self, op, a, b, node):
+        if isinstance(a, (_IdxSet, _Count)) or isinstance(b, (_IdxSet, _Count)):
+            raise symx.Unsupported("symx: arithmetic on an index array / a count at %s" % self.where(node))
+        return super().binop(op, a, b, node)
+
+    def subscript(self, base, idx, e):
+        if isinstance(base, _IdxSet) and base.tup:
+            if isinstance(idx, (int, sp.Integer)) and not isinstance(idx, bool) and int(idx) in (0, -1):
+                return _IdxSet(base.cond, False)          # numpy.nonzero(c)[0]: the index array of a 1-d condition
+            raise symx.Unsupported("symx: subscript `%s` of the tuple of index arrays at %s" % (norm(e)[:60], self.where(e)))
+        return super().subscript(base, idx, e)
+
+    def _selection_call(self, c, full0):
+        """value of a call that builds a condition, an index set or a count; NotImplemented when the call is something else"""
+        f = c.func
+        nargs = len(c.args) + len(c.keywords)
+        if full0 in _INDEX_SET_FUNCS and nargs == 1 and not any(isinstance(a, ast.Starred) for a in c.args):
+            tup, pname = _INDEX_SET_FUNCS[full0]
+            a = c.args[0] if c.args else (c.keywords[0].value if c.keywords[0].arg == pname and pname else None)
+            if a is not None:
+                r = self._index_set(self.ev(a), tup, c)
+                if r is not None:
+                    return r
+            return NotImplemented
+        if full0 in _CMP_UFUNCS and len(c.args) == 2 and not c.keywords:
+            return self.ev(ast.copy_location(ast.Compare(left=c.args[0], ops=[_CMP_UFUNCS[full0]()], comparators=[c.args[1]]), c))
+        if full0 in _LOGIC_UFUNCS and len(c.args) == 2 and not c.keywords:
+            a, b = self.ev(c.args[0]), self.ev(c.args[1])
+            if isinstance(a, symx.Mask) and isinstance(b, symx.Mask):
+                return self.binop(_LOGIC_UFUNCS[full0](), a, b, c)
+            return NotImplemented
+        if full0 in _NOT_UFUNCS and len(c.args) == 1 and not c.keywords:
+            a = self.ev(c.args[0])
+            if isinstance(a, _IdxSet):
+                raise symx.Unsupported("symx: `%s` of an index array at %s" % (norm(c)[:60], self.where(c)))
+            if isinstance(a, symx.Mask):
+                return symx.Mask(sp.Not(a.cond))
+            return NotImplemented
+        # counts
+        arg = None
+        kind = None
+        if isinstance(f, ast.Name) and f.id == "len" and "len" not in self.vars and len(c.args) == 1 and not c.keywords:
+            arg, kind = c.args[0], "len"
+        elif full0 == "numpy.size" and len(c.args) == 1 and not c.keywords:
+            arg, kind = c.args[0], "size"
+        elif full0 in ("numpy.count_nonzero", "numpy.sum") and len(c.args) == 1 and not c.keywords:
+            arg, kind = c.args[0], "true"
+        elif isinstance(f, ast.Attribute) and f.attr in ("sum", "nonzero", "reshape") and not self._module_ref(f.value):
+            try:
+                rv = self.ev(f.value)
+            except symx.Unsupported:
+                return NotImplemented
+            if not isinstance(rv, symx.Mask):
+                if f.attr == "nonzero" and not c.args and not c.keywords and symx._is_expr(rv):
+                    r = self._index_set(rv, True, c)
+                    return r if r is not None else NotImplemented
+                return NotImplemented
+            if f.attr == "nonzero" and not c.args and not c.keywords:
+                return self._index_set(rv, True, c)
+            if f.attr == "reshape" and not c.keywords and not (isinstance(rv, _IdxSet) and rv.tup):
+                shp = [const_value(a) for a in c.args]
+                if shp == [-1] or (len(c.args) == 1 and isinstance(c.args[0], (ast.Tuple, ast.List)) and [const_value(x) for x in c.args[0].elts] == [-1]):
+                    return rv          # flattened: the same elements
+                return NotImplemented
+            if f.attr == "sum" and not c.args and not c.keywords:
+                if isinstance(rv, _IdxSet):
+                    raise symx.Unsupported("symx: `%s` sums indices at %s" % (norm(c)[:60], self.where(c)))
+                return _Count(rv)
+            return NotImplemented
+        if arg is None:
+            return NotImplemented
+        v = self.ev(arg)
+        if not isinstance(v, symx.Mask):
+            return NotImplemented
+        if isinstance(v, _IdxSet) and v.tup:
+            raise symx.Unsupported("symx: `%s` of the tuple of index arrays at %s" % (norm(c)[:60], self.where(c)))
+        if kind == "true" and isinstance(v, _IdxSet):
+            raise symx.Unsupported("symx: `%s` of an index array says nothing about how many elements are selected at %s" % (norm(c)[:60], self.where(c)))
+        if kind == "len" and not isinstance(v, _IdxSet):
+            return NotImplemented          # the number of points
+        return _Count(v)
+
     # -- the root finder --------------------------------------------------------------------------------------------------------
     def _solver(self, c, full):
         sig = _SOLVER_SIG.get(full)
@@ -379,6 +652,14 @@ class _Env(symx.Env):
     def ev(self, e, stmt_level=False):
         if isinstance(e, ast.Attribute) and self._method(e):
             return _Bound(e.attr)
+        if isinstance(e, ast.Constant) and type(e.value) in (int, float) and e.value == 360 and getattr(self.se, "sym360", None) is not None:
+            return self.se.sym360
+        if isinstance(e, ast.UnaryOp) and isinstance(e.op, ast.Invert):
+            v = self.ev(e.operand)
+            if isinstance(v, _IdxSet):
+                raise symx.Unsupported("symx: `~` of an index array at %s" % self.where(e))
+            if isinstance(v, symx.Mask):
+                return symx.Mask(sp.Not(v.cond))
         if isinstance(e, ast.JoinedStr):
             # f"{prefix}_{i}": the text, when every part is a string or an integer (as `prefix + "_" + str(i)` would be)
             parts = []
@@ -503,6 +784,9 @@ class _Env(symx.Env):
                 # literal arguments: the shared code (the arguments are evaluated again there; they are plain values)
         d0 = dotted_name(f)
         full0 = self.se.repo.resolve_name(self.mod, d0) if d0 else ""
+        r_ = self._selection_call(c, self._full(f))
+        if r_ is not NotImplemented:
+            return r_
         if full0 == "operator.index" and len(c.args) == 1 and not c.keywords:
             x = self.ev(c.args[0])
             if (isinstance(x, int) and not isinstance(x, bool)) or (isinstance(x, sp.Basic) and x.is_integer):
@@ -578,6 +862,10 @@ class _Env(symx.Env):
         return super().call(c, stmt_level)
 
     def assign(self, t, v, st):
+        if isinstance(t, (ast.Tuple, ast.List)) and isinstance(v, _IdxSet):
+            if len(t.elts) == 1 and v.tup and not isinstance(t.elts[0], ast.Starred):
+                return self.assign(t.elts[0], _IdxSet(v.cond, False), st)          # (w,) = numpy.nonzero(c)
+            raise symx.Unsupported("symx: cannot unpack %r into %s at %s" % (v, norm(t), self.where(st)))
         if isinstance(t, ast.Subscript) and isinstance(t.slice, ast.Tuple) and len(t.slice.elts) == 2 and not any(isinstance(x, ast.Slice) for x in t.slice.elts):
             idx = self.ev(t.slice)
             if isinstance(idx, tuple) and all(isinstance(i, (list, tuple)) for i in idx):
@@ -1026,25 +1314,31 @@ def tangent(chk, repo):
     theta = sp.Piecewise((sp.atan(1 / rr), rr > 0), (sp.pi / 2, True))
     phi = sp.atan2(x, -y)
     ok = isinstance(r, tuple) and len(r) == 2
+    # a result that holds the trace of a value or test the evaluator could not see into says nothing about the code: no verdict
+    unk = lambda t_: None if _unknown(t_) else False
     if not ok:
-        chk.ob("R10.5", "image2sph::returns-pair", False, fi.where(), "got %r" % (r,))
+        chk.ob("R10.5", "image2sph::returns-pair", False if isinstance(r, (tuple, list, sp.Basic)) else None, fi.where(), "got %r" % (r,))
     else:
         want1 = sp.Function("_rotate_1")(phi, theta, _mat(_tr(RM)))
         want0 = sp.Function("_rotate_0")(phi, theta, _mat(_tr(RM)))
-        got0 = _peel_default(r[0])
+        got0 = _peel_default(r[0]) if isinstance(r[0], sp.Basic) else r[0]
         okf = getattr(got0, "func", None) is not None and got0.func.__name__ == "_rotate_0" and len(got0.args) == 3
-        chk.ob("R10.5", "image2sph::rotation-is-applied-in-reverse", okf and got0.args[2] == _mat(_tr(RM)), fi.where(),
+        chk.ob("R10.5", "image2sph::rotation-is-applied-in-reverse", (okf and got0.args[2] == _mat(_tr(RM))) or unk(r[0]), fi.where(),
                "native -> celestial uses the transposed (reverse) rotation matrix")
         if okf:
             eq, d = symx.equal(got0.args[0], phi)
-            chk.ob("R10.5", "image2sph::native-longitude", eq, fi.where(), "phi = atan2(x, -y), converted to degrees and back to radians exactly once%s" % ("" if eq else " (differs by %s)" % str(d)[:160]))
+            chk.ob("R10.5", "image2sph::native-longitude", eq or unk(got0.args[0]), fi.where(), "phi = atan2(x, -y), converted to degrees and back to radians exactly once%s" % ("" if eq else " (differs by %s)" % str(d)[:160]))
             eq = got0.args[1] == theta or symx.equal(got0.args[1], theta)[0]
-            chk.ob("R10.5", "image2sph::native-latitude", eq, fi.where(),
+            chk.ob("R10.5", "image2sph::native-latitude", eq or unk(got0.args[1]), fi.where(),
                    "theta = atan(180/(pi R)) for R > 0 and exactly 90 deg at the reference point (R = 0)%s" % ("" if eq else " (got %s)" % str(got0.args[1])[:200]))
-        chk.ob("R10.5", "image2sph::latitude-from-rotation", r[1] == want1 or symx.equal(r[1], want1)[0], fi.where(), "latitude is the rotated latitude, unchanged")
-    eq = all(_arms_equal(a, b) for a, b in zip(res[True], res[False])) if ok and isinstance(res[True], tuple) else False
+        eq = isinstance(r[1], sp.Basic) and (r[1] == want1 or symx.equal(r[1], want1)[0])
+        chk.ob("R10.5", "image2sph::latitude-from-rotation", eq or unk(r[1]), fi.where(), "latitude is the rotated latitude, unchanged")
+    if ok and isinstance(res[True], tuple) and len(res[True]) == 2 and (_unknown(res[True]) or _unknown(res[False])):
+        eq = None
+    else:
+        eq = all(_arms_equal(a, b) for a, b in zip(res[True], res[False])) if ok and isinstance(res[True], tuple) else False
     chk.ob("R10.7", "image2sph::scalar-and-array-arms-agree", eq, fi.where(), "the scalar arm and the array arm denote the same terms")
-    _fold_sites(chk, fi, repo)
+    _fold(chk, repo, fi)
     # projection
     fi = repo.func(W + "sph2image")
     res = {}
@@ -1061,6 +1355,9 @@ def tangent(chk, repo):
     ok = isinstance(r, tuple) and len(r) == 2
     if ok:
         for nm, got, want in (("x", r[0], wantx), ("y", r[1], wanty)):
+            if _unknown(got):
+                chk.ob("R10.5", "sph2image::%s" % nm, None, fi.where(), "the result depends on a test or value the evaluator cannot see into: %s" % str(got)[:160])
+                continue
             eq = _arms_equal(got, want)
             if not eq and isinstance(got, sp.Piecewise) and len(got.args) == 2:
                 eq = symx.equal(got.args[0][0], want.args[0][0])[0] and got.args[1][0] == 0 and \
@@ -1069,76 +1366,289 @@ def tangent(chk, repo):
                    "%s = %s R_theta %s phi with R_theta = (180/pi)/tan(theta) for theta > 0, forward rotation (matrix not transposed), radians taken once%s"
                    % (nm, "" if nm == "x" else "-", "sin" if nm == "x" else "cos", "" if eq else " (got %s)" % str(got)[:200]))
     else:
-        chk.ob("R10.5", "sph2image::returns-pair", False, fi.where(), "got %r" % (r,))
-    eq = all(_arms_equal(a, b) for a, b in zip(res[True], res[False])) if ok and isinstance(res[True], tuple) else False
+        chk.ob("R10.5", "sph2image::returns-pair", False if isinstance(r, (tuple, list, sp.Basic)) else None, fi.where(), "got %r" % (r,))
+    if ok and isinstance(res[True], tuple) and len(res[True]) == 2 and (_unknown(res[True]) or _unknown(res[False])):
+        eq = None
+    else:
+        eq = all(_arms_equal(a, b) for a, b in zip(res[True], res[False])) if ok and isinstance(res[True], tuple) else False
     chk.ob("R10.7", "sph2image::scalar-and-array-arms-agree", eq, fi.where(), "the scalar arm and the array arm denote the same terms")
 
 
-def _fold_sites(chk, fi, repo=None):
-    """longitude fold into [0,360): `< 0 -> += 360` and `>= 360 -> -= 360` for scalars and arrays; the upper test must be >=
-    because adding 360 to a tiny negative longitude rounds to exactly 360.  The fold may live in image2sph itself or in a helper
-    it calls; conditions may be if-tests (scalars), np.where index arrays or boolean masks (arrays)."""
-    from vcheck.core import PyRepo
-    repo = repo or PyRepo()
-    fns = [fi]
-    for c in walk_no_nested(fi.node):
-        if isinstance(c, ast.Call):
-            d = dotted_name(c.func)
-            if d and d.startswith("self.") and repo.has(W + d[5:]):
-                fns.append(repo.func(W + d[5:]))
-            elif d and repo.has(repo.resolve_name(repo.module(MOD), d)):
-                fns.append(repo.func(repo.resolve_name(repo.module(MOD), d)))
-    sites = []
-    for f in fns:
-        cfg = cfg_of(f)
-        view = cfg.view()
-        for n in cfg.nodes:
-            a = n.ast
-            step = None
-            if n.kind == "stmt" and isinstance(a, ast.AugAssign) and isinstance(a.op, (ast.Add, ast.Sub)) and const_value(a.value) in (360, 360.0):
-                step = ("Add" if isinstance(a.op, ast.Add) else "Sub", a.target)
-            elif n.kind == "stmt" and isinstance(a, ast.Assign) and isinstance(a.value, ast.BinOp) and isinstance(a.value.op, (ast.Add, ast.Sub)) \
-                    and const_value(a.value.right) in (360, 360.0) and norm(a.value.left) == norm(a.targets[0]):
-                step = ("Add" if isinstance(a.value.op, ast.Add) else "Sub", a.targets[0])
-            if step is None:
-                continue
-            tgt = step[1]
-            cond = None
-            if isinstance(tgt, ast.Subscript):
-                idx = norm(tgt.slice)
-                for m in cfg.nodes:
-                    if m.kind == "stmt" and isinstance(m.ast, ast.Assign) and m.ast.lineno < a.lineno and idx in [norm(t) for t in ast.walk(m.ast.targets[0]) if isinstance(t, ast.Name)]:
-                        v = m.ast.value
-                        if isinstance(v, ast.Call) and call_name(v) == "where" and v.args:
-                            cond = v.args[0]
-                        elif isinstance(v, ast.Compare):
-                            cond = v
-                base = norm(tgt.value)
-            else:
-                for b, lab in view.controlling_branches(n):
-                    if lab == "T" and b.kind == "branch" and isinstance(b.ast.test, ast.Compare):
-                        cond = b.ast.test
-                        break
-                base = norm(tgt)
-            sites.append((f, n, base, step[0], cond))
-    up = [(f, n, b, c) for f, n, b, op, c in sites if op == "Sub"]
-    lo = [(f, n, b, c) for f, n, b, op, c in sites if op == "Add"]
-    if not up and not lo:
-        # e.g. a modulo: decided by the symbolic rule elsewhere, nothing to say here
-        chk.ob("R10.5", "image2sph::longitude-fold-sites", None, fi.where(), "no +-360 wrap statements found in image2sph or the helpers it calls")
-        return
-    ok = len(up) == len(lo) and len(up) in (1, 2)
-    chk.ob("R10.5", "image2sph::longitude-fold-sites", ok, fi.where(), "matching lower (+360) and upper (-360) wraps for scalar and array input (found %d/%d)" % (len(lo), len(up)))
-    for f, n, b, c in lo:
-        good = isinstance(c, ast.Compare) and isinstance(c.ops[0], (ast.Lt, ast.LtE)) and const_value(c.comparators[0]) in (0, 0.0) and norm(c.left) == b
-        chk.ob("R10.5", "image2sph::lower-wrap", good, f.where(n.ast), "negative longitudes gain 360 (test `%s`)" % (norm(c) if c is not None else None))
-    for f, n, b, c in up:
-        good = isinstance(c, ast.Compare) and isinstance(c.ops[0], ast.GtE) and const_value(c.comparators[0]) in (360, 360.0) and norm(c.left) == b
-        chk.ob("R10.5", "image2sph::upper-wrap-closed", good, f.where(n.ast),
-               "[0,360) is open at the top: the upper wrap must test >= 360 (a tiny negative longitude plus 360 rounds to 360.0) (test `%s`)" % (norm(c) if c is not None else None))
-    if ok:
-        for (f1, nl, _, _), (f2, nu, _, _) in zip(sorted(lo, key=lambda t: t[1].ast.lineno), sorted(up, key=lambda t: t[1].ast.lineno)):
-            chk.ob("R10.5", "image2sph::upper-wrap-after-lower", f1 is f2 and nl.ast.lineno < nu.ast.lineno, f2.where(nu.ast), "the >= 360 wrap runs after the +360 wrap so it can catch its rounding")
+# -- the longitude fold into [0,360) as a function of the rotated longitude ----------------------------------------------------
+C360 = sp.Symbol("C360", positive=True)          # the literal 360 of the analysed code: kept symbolic so that `L + 360 >= 360` is not rewritten to `L >= 0`
+LROT, BROT = sp.Symbol("LROT", real=True), sp.Symbol("BROT", real=True)          # what the spherical rotation returns
+
+
+class _NoVerdict(Exception):
+    pass
+
+
+def _unknown(t):
+    """the term is not a term, or holds the trace of something the evaluator could not see into"""
+    if isinstance(t, (tuple, list)):
+        return any(_unknown(x) for x in t)
+    if not isinstance(t, sp.Basic):
+        return True
+    return any(str(s_).startswith(("OPAQUE_", "B_")) for s_ in t.free_symbols)
+
+
+def _rat(e):
+    if isinstance(e, sp.Float):
+        return sp.Rational(repr(float(e)))
+    return sp.Rational(e)
+
+
+class _FoldEval:
+    """evaluation of a case-distinction term in L (and the period C360) at a point a + b*eps of the extended number line: eps is a
+    positive infinitesimal, so p - eps / p + eps are the floating-point neighbours of p.  With `rounding` an addition that moves such
+    a number away from its `a` (e.g. -eps + 360) may absorb the eps part (the nearest double of 360 - 1e-20 is 360.0) or keep it
+    (360 - 6e-14 is a double): both outcomes are followed, the same one wherever the same sum occurs.  Cancellation to a = 0 is exact."""
+
+    def __init__(self, lval, choose=None):
+        self.lval = lval
+        self.choose = choose
+
+    def num(self, e):
+        if e == LROT:
+            return self.lval
+        if e == C360:
+            return (sp.Integer(360), sp.Integer(0))
+        if isinstance(e, sp.Number) and e.is_finite:
+            return (_rat(e), sp.Integer(0))
+        if isinstance(e, sp.Piecewise):
+            for v, c in e.args:
+                if self.cond(c):
+                    return self.num(v)
+            raise _NoVerdict("no arm of %s applies" % str(e)[:80])
+        if isinstance(e, sp.Add):
+            vals = [self.num(x) for x in e.args]
+            a = sum((v[0] for v in vals), sp.Integer(0))
+            b = sum((v[1] for v in vals), sp.Integer(0))
+            carried = [v for v in vals if v[1] != 0]
+            if self.choose is not None and b != 0 and a != 0 and any(v[0] != a for v in carried):
+                if self.choose(e):
+                    b = sp.Integer(0)
+            return (a, b)
+        if isinstance(e, sp.Mul):
+            vals = [self.num(x) for x in e.args]
+            if sum(1 for v in vals if v[1] != 0) > 1:
+                raise _NoVerdict("product of two inexact factors")
+            a = sp.Integer(1)
+            for v in vals:
+                a *= v[0]
+            b = sp.Integer(0)
+            for i, v in enumerate(vals):
+                if v[1] != 0:
+                    b = v[1]
+                    for j, u in enumerate(vals):
+                        if j != i:
+                            b *= u[0]
+            return (a, b)
+        raise _NoVerdict("term %s" % str(e)[:80])
+
+    def cond(self, c):
+        if c is sp.true or c == sp.true:
+            return True
+        if c is sp.false or c == sp.false:
+            return False
+        if isinstance(c, sp.And):
+            return all(self.cond(x) for x in c.args)
+        if isinstance(c, sp.Or):
+            return any(self.cond(x) for x in c.args)
+        if isinstance(c, sp.Not):
+            return not self.cond(c.args[0])
+        if isinstance(c, sp.ITE):
+            return self.cond(c.args[1]) if self.cond(c.args[0]) else self.cond(c.args[2])
+        if isinstance(c, sp.core.relational.Relational):
+            x, y = self.num(c.lhs), self.num(c.rhs)
+            d = (x[0] - y[0], x[1] - y[1])
+            sgn = 1 if (d[0] > 0 or (d[0] == 0 and d[1] > 0)) else (-1 if (d[0] < 0 or (d[0] == 0 and d[1] < 0)) else 0)
+            if isinstance(c, sp.StrictLessThan):
+                return sgn < 0
+            if isinstance(c, sp.LessThan):
+                return sgn <= 0
+            if isinstance(c, sp.StrictGreaterThan):
+                return sgn > 0
+            if isinstance(c, sp.GreaterThan):
+                return sgn >= 0
+            if isinstance(c, sp.Eq):
+                return sgn == 0
+            if isinstance(c, sp.Ne):
+                return sgn != 0
+        raise _NoVerdict("condition %s" % str(c)[:80])
+
+    def resolve(self, e):
+        """the term with every case distinction replaced by the arm that applies at this point"""
+        if isinstance(e, sp.Piecewise):
+            for v, c in e.args:
+                if self.cond(c):
+                    return self.resolve(v)
+            raise _NoVerdict("no arm of %s applies" % str(e)[:80])
+        if isinstance(e, (sp.Add, sp.Mul)):
+            return e.func(*[self.resolve(x) for x in e.args])
+        if e in (LROT, C360) or isinstance(e, sp.Number):
+            return e
+        raise _NoVerdict("term %s" % str(e)[:80])
+
+
+def _alternatives(e, limit=64):
+    """the case-free terms a term may stand for (every arm of every case distinction)"""
+    if isinstance(e, sp.Piecewise):
+        out = []
+        for v, _ in e.args:
+            out += _alternatives(v, limit)
+    elif isinstance(e, (sp.Add, sp.Mul)):
+        out = [[]]
+        for x in e.args:
+            out = [o + [y] for o in out for y in _alternatives(x, limit)]
+            if len(out) > limit:
+                raise _NoVerdict("too many cases")
+        out = [e.func(*o) for o in out]
+    else:
+        out = [e]
+    if len(out) > limit:
+        raise _NoVerdict("too many cases")
+    return out
+
+
+def _fold_breakpoints(T):
+    """every value of L at which a comparison of the term may change its outcome"""
+    pts = set()
+    for rel in T.atoms(sp.core.relational.Relational):
+        for alt in _alternatives((rel.lhs - rel.rhs).subs(C360, 360)):
+            alt = sp.expand(alt)
+            if alt.free_symbols - {LROT}:
+                raise _NoVerdict("comparison `%s` is not about the rotated longitude" % str(rel)[:80])
+            try:
+                po = sp.Poly(alt, LROT)
+            except sp.PolynomialError:
+                raise _NoVerdict("comparison `%s` is not linear" % str(rel)[:80])
+            if po.degree() > 1:
+                raise _NoVerdict("comparison `%s` is not linear" % str(rel)[:80])
+            if po.degree() == 1:
+                c1, c0 = po.all_coeffs()
+                pts.add(_rat(-c0 / c1))
+    return pts
+
+
+def _fold_outcomes(T, lval, limit=256):
+    """all values the term may take at lval under the rounding model"""
+    out = []
+    stack = [[]]
+    while stack:
+        script = stack.pop()
+        memo, used = {}, []
+
+        def choose(key):
+            if key not in memo:
+                bit = script[len(used)] if len(used) < len(script) else 0
+                used.append(bit)
+                memo[key] = bit
+            return memo[key]
+        out.append(_FoldEval(lval, choose).num(T))
+        for i in range(len(script), len(used)):
+            stack.append(used[:i] + [1])
+        if len(out) > limit:
+            raise _NoVerdict("too many rounding cases")
+    return out
+
+
+def _fold_analyse(T, lo=-180, hi=180):
+    """decides, for every L in [lo, hi] and its two floating-point neighbours, whether T(L) is L + 360 k and lies in [0,360).
+    Case partition at the term's own comparison points: between two neighbouring points every comparison has one outcome, the term is
+    one case-free expression there, and the two facts are decided for that expression symbolically.
+    Returns {aspect: (ok, message)} with ok None when the term is outside the fragment this analysis understands."""
+    res = {}
+    try:
+        if T.free_symbols - {LROT, C360} or T.atoms(sp.core.function.AppliedUndef):
+            raise _NoVerdict("the longitude is not a case distinction over the rotated longitude alone: %s" % str(T)[:120])
+        lo, hi = sp.Integer(lo), sp.Integer(hi)
+        pts = sorted({p for p in _fold_breakpoints(T) if lo < p < hi} | {lo, hi})
+        bad_c, bad_r = [], []
+        # exact arithmetic: the points and the open intervals between them
+        for p in pts:
+            v = _FoldEval((p, sp.Integer(0))).num(T)
+            k = (v[0] - p) / 360
+            if not k.is_integer:
+                bad_c.append("L = %s gives %s" % (p, v[0]))
+            elif not (0 <= v[0] < 360):
+                bad_r.append("L = %s gives %s" % (p, v[0]))
+        for p, q in zip(pts, pts[1:]):
+            es = [_FoldEval((p + (q - p) * f, sp.Integer(0))).resolve(T) for f in (sp.Rational(1, 3), sp.Rational(2, 3))]
+            es = [sp.expand(e.subs(C360, 360)) for e in es]
+            if es[0] != es[1]:
+                raise _NoVerdict("the case partition missed a comparison point in (%s, %s)" % (p, q))
+            k = sp.expand(es[0] - LROT)
+            if not k.is_number or not (k / 360).is_integer:
+                bad_c.append("%s < L < %s gives %s" % (p, q, es[0]))
+            elif not (p + k >= 0 and q + k <= 360):
+                bad_r.append("%s < L < %s gives L %+d" % (p, q, int(k)))
+        res["congruent"] = (not bad_c, "; ".join(bad_c[:3]))
+        res["range"] = (None if bad_c and not bad_r else not bad_r, "; ".join(bad_r[:3]))
+        # the floating-point neighbours of the points
+        numeric_period = any(isinstance(x, sp.Number) and x != 0 and any(y.has(LROT) for y in e.args) for e in T.atoms(sp.Add) for x in e.args)
+        bad_f = []
+        for p in pts:
+            for sgn in (-1, 1):
+                for v in _fold_outcomes(T, (p, sp.Integer(sgn))):
+                    k = (v[0] - p) / 360
+                    inr = (v[0] > 0 or (v[0] == 0 and v[1] >= 0)) and (v[0] < 360 or (v[0] == 360 and v[1] < 0))
+                    if not k.is_integer or not inr:
+                        bad_f.append("L = %s %s eps may give %s%s" % (p, "+" if sgn > 0 else "-", v[0], "" if v[1] == 0 else (" + eps" if v[1] > 0 else " - eps")))
+        if bad_f and numeric_period and not (bad_c or bad_r):
+            res["rounding"] = (None, "the period is not spelled as the literal 360 next to the longitude: rounding cannot be followed (%s)" % bad_f[0])
+        else:
+            res["rounding"] = (not bad_f, "; ".join(sorted(set(bad_f))[:3]))
+    except _NoVerdict as e:
+        for k in ("congruent", "range", "rounding"):
+            res.setdefault(k, (None, str(e)))
+    return res
+
+
+def _fold_term(repo, fi, scalar):
+    """the longitude image2sph returns as a term in the longitude the spherical rotation returns (LROT); (term, error text)"""
+    x, y = symx.symbols("x", "y")
+    err = "image2sph does not call the spherical rotation"
+    for helper in ("_rotate", "Rotate"):
+        if not repo.has(W + helper):
+            continue
+        se = _mkse(repo, (), opaque_tests=scalar)
+        se.sym360 = C360
+        se.input_kind = "scalar" if scalar else "array"
+        se.coord_inputs = {x, y}
+        se.summaries = {repo.func(W + helper).qualname: lambda bound: (LROT, BROT)}
+        try:
+            r = se.run(fi, {"x": x, "y": y, "self.rotation_matrix": RM}, {})
+        except symx.Unsupported as e:
+            return None, str(e)
+        if not se.calls:
+            continue
+        if not (isinstance(r, tuple) and len(r) == 2 and isinstance(r[0], sp.Basic)):
+            return None, "image2sph returns %s" % str(r)[:80]
+        if _unknown(r[0]):
+            return None, "the longitude depends on a test or value the evaluator cannot see into: %s" % str(r[0])[:120]
+        return r[0], ""
+    return None, err
+
+
+def _fold(chk, repo, fi):
+    """longitude fold into [0,360).  The spherical rotation returns L = atan2(..) in degrees (rule _rotate::longitude), i.e. [-180, 180]
+    up to one rounding; what image2sph returns for it, as a term T(L) evaluated by the term evaluator (whatever the spelling: if tests,
+    numpy.where index arrays, nonzero / flatnonzero, boolean masks, three-argument numpy.where, a helper), must be L + 360 k, lie in
+    [0,360), and stay there when L + 360 rounds: -1e-20 + 360 is 360.0, so the upper wrap must test >= 360 and run after the lower one."""
+    for scalar in (True, False):
+        tag = "image2sph::longitude-fold[%s]" % ("scalar" if scalar else "array")
+        T, err = _fold_term(repo, fi, scalar)
+        if T is None:
+            chk.ob("R10.5", tag, None, fi.where(), "the fold of the longitude into [0,360) is not evaluable in the term domain (%s)" % err)
+            continue
+        res = _fold_analyse(T)
+        for key, what in (("congruent", "the returned longitude is the rotated longitude plus a multiple of 360"),
+                          ("range", "the returned longitude lies in [0,360) for every rotated longitude in [-180, 180]"),
+                          ("rounding", "[0,360) is open at the top: a tiny negative longitude plus 360 rounds to 360.0 and must still be wrapped "
+                                       "(upper wrap tests >= 360 and runs after the lower wrap)")):
+            ok, why = res[key]
+            chk.ob("R10.5", "%s::%s" % (tag, key), ok, fi.where(), what + (" -- " + why if why else ""))
 
 
 # ---------------------------------------------------------------------------
